@@ -172,7 +172,15 @@ def one(rec, hub, seed, tier, i, tmpdir):
                 if route == "from_df":
                     got = fd.FlodymArray.from_df(dims=dims, df=df.copy(), allow_missing_values=am, allow_extra_values=ae)
                 elif route == "set_values_from_df":
-                    target = fd.FlodymArray(dims=dims, values=np.full(dims.shape, -7.25))
+                    tk = (i // 6) % 4
+                    if tk == 0:
+                        target = fd.FlodymArray(dims=dims, values=np.full(dims.shape, -7.25))
+                    elif tk == 1:
+                        target = fd.FlodymArray.full(dims, 0)  # integer zeros: the imported (fractional) values must survive
+                    elif tk == 2:
+                        target = fd.Parameter(dims=dims, values=np.full(dims.shape, 3, dtype=np.int32), name="par")
+                    else:
+                        target = fd.FlodymArray(dims=dims, values=np.full(dims.shape, 1.5, dtype=np.float32))
                     pre = Snap(target)
                     target.set_values_from_df(df.copy(), allow_missing_values=am, allow_extra_values=ae)
                     got = target
